@@ -8,7 +8,7 @@ R5  atom::new_eq and atom::equates traverse the same, complete set of fields.
 R6  polarity-aware activation dispatch in solver::propagate.
 """
 from ..expr import LocalEnv, canon, show
-from ..facts import AnalysisBroken, short, src, walk
+from ..facts import AnalysisBroken, kids, short, src, walk
 from ..schema import posted, show_clause
 from ..tables import VecBuilder, arm_of, enum_paths, fmt_items, switch_arms
 from .. import cfg
@@ -406,6 +406,27 @@ def r5(ctx, fs):
         ctx.instance(rid, [f.id, 'preliminary'], {'identity': idn, 'different_predicate': typ})
         if not okp:
             ctx.finding(rid, f.id, 'preliminary', 'atom::%s: an atom equals itself; atoms of different predicates never unify (found identity -> %s, different predicate -> %s)' % (nm, idn, typ), loc=f.loc)
+    # which fields are synthetic (and therefore invisible to atom equality): only the `this` / `return` pseudo-variables of constructors and methods
+    SYN_OK = {('ratio::constructor::constructor', 'this'), ('ratio::method::method', 'this'), ('ratio::method::method', 'return')}
+    nsites = 0
+    for g in fs.defined():
+        for n in g.nodes():
+            if n.get('k') != 'CXXNewExpr' or (n.get('t') or '').replace('class ', '') != 'ratio::field *':
+                continue
+            ce = [c for c in kids(n) if c.get('k') == 'CXXConstructExpr']
+            if not ce or len(ce[0].get('c') or []) < 4:
+                raise AnalysisBroken('%s: field construction with an unexpected shape: %s' % (g.id, src(n)))
+            args = ce[0]['c']
+            syn = canon(args[3], None)
+            nm = canon(args[1], None)
+            nm = nm[2][1] if isinstance(nm, tuple) and nm[0] == 'new' and len(nm) > 2 and isinstance(nm[2], tuple) and nm[2][0] == 'str' else None
+            nsites += 1
+            ctx.instance(rid, ['field-construction', g.name, nm or short(n.get('loc'))], {'function': g.id, 'name': nm, 'synthetic': show(syn)})
+            if syn != 'false' and (g.name, nm) not in SYN_OK:
+                ctx.finding(rid, g.id, 'synthetic:%s' % (nm or 'field'), '%s creates the field %s as synthetic (%s): atom::new_eq / atom::equates skip synthetic fields, so two atoms that differ in it would unify' % (
+                    short(g.name), repr(nm) if nm else 'of ' + src(n)[:80], show(syn)), node=n, expect='synthetic only for the this / return pseudo-variables of constructors and methods')
+    if nsites < 15:
+        raise AnalysisBroken('C03.R5: only %d constructions of ratio::field found (expected >= 15)' % nsites)
     if res['new_eq'][2] != res['equates'][2]:
         ctx.finding(rid, res['equates'][0].id, 'sibling', 'atom::equates and atom::new_eq filter fields differently (%s vs %s): a unification could be offered whose equality literal ignores an argument' % (
             show(res['equates'][2]), show(res['new_eq'][2])), loc=res['equates'][0].loc)
